@@ -53,6 +53,23 @@ Expected(f, flush, a, wa, b, wb) ==
   IF flush = 0 THEN UlpDist(f, a, b) ELSE FlushDist(f, a, wa, b, wb)
 DistClause(flush) == IF flush = 0 THEN "dist" ELSE "flush_dist"
 
+\* a natural rounded to 53 significant bits (nearest, ties to even): what a distance becomes when NumPy
+\* stores it in a float64 array (the known finding of the ndarray path)
+Round53(d) ==
+  LET bl == NBitLen(d)
+  IN  IF bl <= 53 THEN d
+      ELSE LET sh == bl - 53
+               q == NShr(d, sh)
+               rem == NLow(d, sh)
+               c == NCmp(rem, NPow2(sh - 1))
+               up == c > 0 \/ (c = 0 /\ NIsOdd(q))
+           IN  NShl(IF up THEN NAdd(q, NOne) ELSE q, sh)
+\* a wrong distance that is exactly the float64 rounding of the right one is keyed apart (suffix _f64rounded)
+DistName(flush, r, rr, d) ==
+  IF r = d /\ rr = d THEN {}
+  ELSE IF r \in {d, Round53(d)} /\ rr \in {d, Round53(d)} THEN {DistClause(flush) \o "_f64rounded"}
+  ELSE {DistClause(flush)}
+
 FailsD(e) ==
   LET f == FmtOf(e.fmt)
       wx == WOf(e, "wx")  wy == WOf(e, "wy")
@@ -60,7 +77,7 @@ FailsD(e) ==
       ELSE IF e.exc # "" THEN {"raised"}
       ELSE IF e.flush = 1 /\ (WitnessBad(f, e.x, wx) \/ WitnessBad(f, e.y, wy)) THEN {"collapse_image"}
       ELSE LET d == Expected(f, e.flush, e.x, wx, e.y, wy)
-           IN  Name(RNat(e.r) # d \/ RNat(e.rr) # d, DistClause(e.flush))
+           IN  DistName(e.flush, RNat(e.r), RNat(e.rr), d)
 
 FailsDC(e) ==
   LET f == FmtOf(e.fmt)
